@@ -69,67 +69,69 @@ def work(chunk):
                 args = calls.build_args(call, seed)
             except Exception:
                 hist["skip-args"] += 1; continue
-            sizes = dict(call.sizes)
-            base = outcome(lambda: getattr(einx, d.op)(call.desc, *[a.copy() for a in args], **sizes, **call.kw))
-            if base[0] == "value": hist["base-values"] += 1
+            for be in (None, "numpy.numpylike"):
+                sizes = dict(call.sizes)
+                if be: sizes["backend"] = be
+                base = outcome(lambda: getattr(einx, d.op)(call.desc, *[a.copy() for a in args], **sizes, **call.kw))
+                if base[0] == "value": hist["base-values"] += 1
 
-            def report(rel, desc2, detail):
-                hist["DIFFER"] += 1
-                if len(bad) < 40:
-                    bad.append(({"kind": "equivariance", "relation": rel, "op": d.op, "desc": call.desc, "shapes": str(call.shapes)},
-                                f"[{rel}] einx.{d.op}({call.desc!r}, shapes={call.shapes}) vs {desc2!r}: {detail}", {"desc": dj, "relation": rel, "sizeset": ss}))
-            # (a) renaming
-            for m in RENAMINGS:
-                desc2 = rename_desc(call.desc, m)
-                sizes2 = {m.get(k, k): v for k, v in sizes.items()}
-                o = outcome(lambda: getattr(einx, d.op)(desc2, *[a.copy() for a in args], **sizes2, **call.kw))
-                hist["relations"] += 1; hist["renaming"] += 1
-                if not eq(call, base, o): report("renaming", desc2, f"{base[0]} vs {o[0]} {o[1] if o[0] == 'raise' else ''}")
-            if base[0] != "value": continue
-            # (b) permuting the items of one input together with the tensor (only flat inputs: one dimension per item)
-            for ti, t in enumerate(d.ins):
-                if any(it[0] == "e" for it in t) or len(t) != len(call.shapes[ti]): continue
-                for p in admissible_perms(t):
-                    d2 = gen._replace_tensor(d, 0, ti, tuple(t[i] for i in p))
-                    desc2 = gen.show(d2)
-                    args2 = [a.copy() for a in args]; args2[ti] = np.ascontiguousarray(np.transpose(args[ti], p))
-                    o = outcome(lambda: getattr(einx, d.op)(desc2, *args2, **sizes, **call.kw))
-                    hist["relations"] += 1; hist["input-permutation"] += 1
-                    if gen.OP_FAMILY[d.op] == "update_at" and ti == 0: continue     # the default relation for the in-place target involves the output expression too
-                    if not eq(call, base, o): report("input-permutation", desc2, f"{o[0]} {o[1] if o[0] == 'raise' else 'values differ'}")
-            # (c) permuting the items of the output permutes the result
-            for ti, t in enumerate(d.outs):
-                if len(d.outs) != 1 or any(it[0] == "e" for it in t): continue
-                res = np.asarray(base[1])
-                if len(t) != res.ndim: continue
-                for p in admissible_perms(t):
-                    d2 = gen._replace_tensor(d, 1, ti, tuple(t[i] for i in p))
-                    desc2 = gen.show(d2)
-                    o = outcome(lambda: getattr(einx, d.op)(desc2, *[a.copy() for a in args], **sizes, **call.kw))
-                    hist["relations"] += 1; hist["output-permutation"] += 1
-                    exp = ("value", np.transpose(res, p))
-                    if gen.OP_FAMILY[d.op] == "update_at":
-                        continue
-                    if not eq(call, exp, o): report("output-permutation", desc2, f"{o[0]} {o[1] if o[0] == 'raise' else 'values differ from the transposed result'}")
-            # (d) grouping two adjacent un-bracketed items of an input (tensor reshaped)
-            for ti, t in enumerate(d.ins):
-                if any(it[0] == "e" for it in t) or len(t) != len(call.shapes[ti]): continue
-                for i in range(len(t) - 1):
-                    if any(l[2] for l in gen.leaves([t[i], t[i + 1]])) or t[i][0] == "c" or t[i + 1][0] == "c": continue
-                    names = gen.names_of([t[i], t[i + 1]])
-                    d2 = gen._replace_tensor(d, 0, ti, t[:i] + (("g", (t[i], t[i + 1])),) + t[i + 2:])
-                    desc2 = gen.show(d2)
-                    sh = call.shapes[ti]
-                    args2 = [a.copy() for a in args]; args2[ti] = args[ti].reshape(sh[:i] + (sh[i] * sh[i + 1],) + sh[i + 2:])
-                    sizes2 = dict(sizes)
-                    for n in names:
-                        if n in (call.env or {}) and not isinstance(call.env[n], tuple): sizes2[n] = call.env[n]
-                    o = outcome(lambda: getattr(einx, d.op)(desc2, *args2, **sizes2, **call.kw))
-                    hist["relations"] += 1; hist["regrouping"] += 1
-                    if gen.OP_FAMILY[d.op] == "update_at" and ti == 0: continue
-                    if o[0] == "raise" and o[1] in ("AxisSizeError",):
-                        hist["regrouping-underdetermined"] += 1; continue
-                    if not eq(call, base, o): report("regrouping", desc2, f"{o[0]} {o[1] if o[0] == 'raise' else 'values differ'}")
+                def report(rel, desc2, detail):
+                    hist["DIFFER"] += 1
+                    if len(bad) < 40:
+                        bad.append(({"kind": "equivariance", "relation": rel, "op": d.op, "desc": call.desc, "shapes": str(call.shapes)},
+                                    f"[{rel}] einx.{d.op}({call.desc!r}, shapes={call.shapes}) vs {desc2!r}: {detail}", {"desc": dj, "relation": rel, "sizeset": ss}))
+                # (a) renaming
+                for m in RENAMINGS:
+                    desc2 = rename_desc(call.desc, m)
+                    sizes2 = {m.get(k, k): v for k, v in sizes.items()}
+                    o = outcome(lambda: getattr(einx, d.op)(desc2, *[a.copy() for a in args], **sizes2, **call.kw))
+                    hist["relations"] += 1; hist["renaming"] += 1
+                    if not eq(call, base, o): report("renaming", desc2, f"{base[0]} vs {o[0]} {o[1] if o[0] == 'raise' else ''}")
+                if base[0] != "value": continue
+                # (b) permuting the items of one input together with the tensor (only flat inputs: one dimension per item)
+                for ti, t in enumerate(d.ins):
+                    if any(it[0] == "e" for it in t) or len(t) != len(call.shapes[ti]): continue
+                    for p in admissible_perms(t):
+                        d2 = gen._replace_tensor(d, 0, ti, tuple(t[i] for i in p))
+                        desc2 = gen.show(d2)
+                        args2 = [a.copy() for a in args]; args2[ti] = np.ascontiguousarray(np.transpose(args[ti], p))
+                        o = outcome(lambda: getattr(einx, d.op)(desc2, *args2, **sizes, **call.kw))
+                        hist["relations"] += 1; hist["input-permutation"] += 1
+                        if gen.OP_FAMILY[d.op] == "update_at" and ti == 0: continue     # the default relation for the in-place target involves the output expression too
+                        if not eq(call, base, o): report("input-permutation", desc2, f"{o[0]} {o[1] if o[0] == 'raise' else 'values differ'}")
+                # (c) permuting the items of the output permutes the result
+                for ti, t in enumerate(d.outs):
+                    if len(d.outs) != 1 or any(it[0] == "e" for it in t): continue
+                    res = np.asarray(base[1])
+                    if len(t) != res.ndim: continue
+                    for p in admissible_perms(t):
+                        d2 = gen._replace_tensor(d, 1, ti, tuple(t[i] for i in p))
+                        desc2 = gen.show(d2)
+                        o = outcome(lambda: getattr(einx, d.op)(desc2, *[a.copy() for a in args], **sizes, **call.kw))
+                        hist["relations"] += 1; hist["output-permutation"] += 1
+                        exp = ("value", np.transpose(res, p))
+                        if gen.OP_FAMILY[d.op] == "update_at":
+                            continue
+                        if not eq(call, exp, o): report("output-permutation", desc2, f"{o[0]} {o[1] if o[0] == 'raise' else 'values differ from the transposed result'}")
+                # (d) grouping two adjacent un-bracketed items of an input (tensor reshaped)
+                for ti, t in enumerate(d.ins):
+                    if any(it[0] == "e" for it in t) or len(t) != len(call.shapes[ti]): continue
+                    for i in range(len(t) - 1):
+                        if any(l[2] for l in gen.leaves([t[i], t[i + 1]])) or t[i][0] == "c" or t[i + 1][0] == "c": continue
+                        names = gen.names_of([t[i], t[i + 1]])
+                        d2 = gen._replace_tensor(d, 0, ti, t[:i] + (("g", (t[i], t[i + 1])),) + t[i + 2:])
+                        desc2 = gen.show(d2)
+                        sh = call.shapes[ti]
+                        args2 = [a.copy() for a in args]; args2[ti] = args[ti].reshape(sh[:i] + (sh[i] * sh[i + 1],) + sh[i + 2:])
+                        sizes2 = dict(sizes)
+                        for n in names:
+                            if n in (call.env or {}) and not isinstance(call.env[n], tuple): sizes2[n] = call.env[n]
+                        o = outcome(lambda: getattr(einx, d.op)(desc2, *args2, **sizes2, **call.kw))
+                        hist["relations"] += 1; hist["regrouping"] += 1
+                        if gen.OP_FAMILY[d.op] == "update_at" and ti == 0: continue
+                        if o[0] == "raise" and o[1] in ("AxisSizeError",):
+                            hist["regrouping-underdetermined"] += 1; continue
+                        if not eq(call, base, o): report("regrouping", desc2, f"{o[0]} {o[1] if o[0] == 'raise' else 'values differ'}")
     return dict(hist), bad
 
 
@@ -211,7 +213,7 @@ def gen_unit(u):
     return [json.loads(json.dumps(desc_json(d))) for d in gen.corpus_descs(ops, Rk, k)]
 
 
-QUICK = [(["id"], 3, 1), (["sum", "max"], 3, 0), (["sum"], 2, 1), (["add", "subtract"], 2, 0), (["add"], 1, 1), (["dot"], 3, 0), (["get_at"], 2, 0), (["add_at", "set_at"], 2, 0), (["flip", "argmax", "sort", "softmax"], 3, 0),
+QUICK = [(["id"], 3, 1), (["id"], 4, 0), (["sum", "max"], 3, 0), (["sum"], 2, 1), (["add", "subtract"], 2, 0), (["add"], 1, 1), (["dot"], 3, 0), (["get_at"], 2, 0), (["add_at", "set_at"], 2, 0), (["flip", "argmax", "sort", "softmax"], 3, 0),
          (["flip", "argmax"], 2, 1)]
 THOROUGH = [(["id"], 3, 2), (["id"], 4, 0), (["sum", "max", "mean"], 3, 1), (["add", "subtract", "where"], 2, 1), (["add"], 3, 0), (["dot"], 3, 1), (["get_at"], 3, 0), (["get_at"], 2, 1), (["add_at", "set_at"], 2, 1),
             (["flip", "argmax", "sort", "softmax", "roll", "argsort"], 3, 1)]
